@@ -161,6 +161,7 @@ def norm_fact(expr, truth):
        ('in', elem, container, bool)    x in c / x not in c
        ('eq', a, b, bool)               a == b / a != b (operands sorted)
        ('isinstance', obj, cls, bool)
+       ('is', a, b, bool)               a is b / a is not b (b not None)
        ('expr', text, bool)"""
     if isinstance(expr, ast.Compare) and len(expr.ops) == 1:
         l, op, r = expr.left, expr.ops[0], expr.comparators[0]
@@ -183,6 +184,8 @@ def norm_fact(expr, truth):
         if isinstance(op, (ast.Eq, ast.NotEq)):
             a, b = sorted((norm_stmt(l), norm_stmt(r)))
             return ("eq", a, b, truth != isinstance(op, ast.NotEq))
+        if isinstance(op, (ast.Is, ast.IsNot)):
+            return ("is", norm_stmt(l), norm_stmt(r), truth != isinstance(op, ast.IsNot))
     n = dotted(expr)
     if n:
         return ("truthy", n, truth)
@@ -401,4 +404,19 @@ def unflushed_generators(fnode):
                      if isinstance(n, _ast.Yield)]
             if not after:
                 out.append((g, lagging[0]))
+    return out
+
+
+def facts_deref(cfg, node, fnode):
+    """facts() plus the same facts with single-assignment temporaries resolved
+    (cached = self._x; if cached is not S: ...  ==  if self._x is not S: ...)."""
+    from .astutil import deref
+    out = []
+    for expr, pol, _ in cfg.guards(node):
+        for a, t in decompose_guard(expr, pol):
+            f1 = norm_fact(a, t)
+            out.append(f1)
+            f2 = norm_fact(deref(fnode, a), t)
+            if f2 != f1:
+                out.append(f2)
     return out
